@@ -10,6 +10,7 @@ import (
 	"runtime/debug"
 	"runtime/metrics"
 	"sort"
+	"strings"
 	"sync"
 	"sync/atomic"
 	"syscall"
@@ -297,6 +298,12 @@ func (x *Ctx) runPasses(passes []*Pass) {
 	for pi, p := range passes {
 		x.passIdx, x.pass = pi, p
 		if pi < x.afterPass {
+			continue
+		}
+		// development aid: VERIF_PASSES=name,name restricts the run to the named passes; such a run is reported as not exhaustive
+		if f := os.Getenv("VERIF_PASSES"); f != "" && !strings.Contains(","+f+",", ","+p.Name+",") {
+			x.st.DeadlineHit = true
+			x.st.Notes = append(x.st.Notes, "pass "+p.Name+" skipped by VERIF_PASSES")
 			continue
 		}
 		setPassBudget(p)
